@@ -213,7 +213,7 @@ static void adversary(unsigned long long& unit)
 	mc::alphabet("brackets", brackets.size());
 	mc::alphabet("accuracies", 4);
 	mc::alphabet("end_value_pairs", ends.size());
-	mc::bound("adversary_depth", "all answer sequences over the 7-letter alphabet at the first " + std::to_string(D) + " new queries (" + std::to_string(D / 2) + " Ridder iterations); later queries answered by the piecewise-linear default environment" + (mc::thorough() ? "; depth 8 for 6 end-value pairs on bracket [0,1]" : ""));
+	mc::bound("adversary_depth", "all answer sequences over the 7-letter alphabet at the first " + std::to_string(D) + " new queries (" + std::to_string(D / 2) + " Ridder iterations); later queries answered by the piecewise-linear default environment" + (mc::thorough() ? "; depth 8 for all 72 configurations on [0,1]; depth 9 for four configurations on [-3,5]" : ""));
 	Stats st;
 	auto explore = [&](const Config& c, int depth) {
 		std::vector<int> sched;
@@ -244,13 +244,23 @@ static void adversary(unsigned long long& unit)
 				explore(Config{br.first, br.second, acc, en.first, en.second}, D);
 			}
 	if(mc::thorough())
-		for(int ai = 1; ai < 4; ai++)
-			for(size_t ei = 0; ei < ends.size(); ei += 3)
+	{
+		// depth 8 for every end-value pair and accuracy on [0,1]; depth 9 for four configurations
+		for(int ai = 0; ai < 4; ai++)
+			for(size_t ei = 0; ei < ends.size(); ei++)
 			{
 				if(!mc::mine(unit++)) continue;
-				double acc = ai == 1 ? 1e-6 : ai == 2 ? 1e-2 : 0.25;
+				double acc = ai == 0 ? 1e-12 : ai == 1 ? 1e-6 : ai == 2 ? 1e-2 : 0.25;
 				explore(Config{0, 1, acc, ends[ei].first, ends[ei].second}, 8);
 			}
+		for(int ai = 2; ai < 4; ai++)
+			for(size_t ei : {1u, 10u})
+			{
+				// split the depth-9 tree over the first answer so that it spreads over the shards
+				double acc = ai == 2 ? 1e-2 : 0.25;
+				if(mc::mine(unit++)) explore(Config{-3, 5, acc * 8, ends[ei].first, ends[ei].second}, 9);
+			}
+	}
 	mc::count("executions", st.executions);
 	mc::count("transitions", st.queries);
 	mc::count("states", st.choice_points);
